@@ -45,6 +45,9 @@ type cafsChunkedReader struct {
 	data  []byte
 	sizes []int
 	i     int
+	// eofWithData: the read that delivers the last bytes reports io.EOF with them (as an
+	// io.SectionReader or an HTTP body may)
+	eofWithData bool
 }
 
 func (r *cafsChunkedReader) Read(p []byte) (int, error) {
@@ -64,6 +67,9 @@ func (r *cafsChunkedReader) Read(p []byte) (int, error) {
 	}
 	copy(p, r.data[:n])
 	r.data = r.data[n:]
+	if r.eofWithData && len(r.data) == 0 {
+		return n, io.EOF
+	}
 	return n, nil
 }
 
@@ -219,7 +225,7 @@ func cafsPutFaulty(c *ctx, r *tr.Rng, st *memstore.Store, leaf, idx int, seed ui
 	if single {
 		src = bytes.NewReader(content)
 	} else {
-		src = &cafsChunkedReader{data: append([]byte(nil), content...), sizes: plan}
+		src = &cafsChunkedReader{data: append([]byte(nil), content...), sizes: plan, eofWithData: (seed+uint64(n))%2 == 0}
 	}
 	var res cafs.PutRes
 	err := corekit.Recover(func() error {
@@ -406,7 +412,7 @@ func cafsPut(c *ctx, fs cafs.Fs, idx int, seed uint64, n int, plan []int, single
 	if single {
 		src = bytes.NewReader(content) // io.WriterTo: one Write of everything
 	} else {
-		src = &cafsChunkedReader{data: append([]byte(nil), content...), sizes: plan}
+		src = &cafsChunkedReader{data: append([]byte(nil), content...), sizes: plan, eofWithData: (seed+uint64(n))%2 == 0}
 	}
 	var res cafs.PutRes
 	err := corekit.Recover(func() error {
